@@ -307,6 +307,11 @@ impl MemStorageCore {
 
         if let Some(entry) = self.entries.first() {
             let offset = compact_index - entry.index;
+            // Retain the term of the last compacted entry for matching purpose, as
+            // `Storage::term` requires for `first_index() - 1`.
+            let last_compacted = &self.entries[offset as usize - 1];
+            self.snapshot_metadata.index = last_compacted.index;
+            self.snapshot_metadata.term = last_compacted.term;
             self.entries.drain(..offset as usize);
         }
         Ok(())
